@@ -148,6 +148,8 @@ Section Sound.
       exists (map (cint k) l), (map (GInt k) l). split; [reflexivity|]. split; [reflexivity|]. split.
       + apply Forall2_map_same. intros x Hx. cbn. exists x. rewrite forallb_forall in Hz. auto.
       + rewrite map_length. exact Hl.
+    - apply andb_true_iff in H as [_ Hl]. eexists _, _. split; [reflexivity|]. split; [reflexivity|].
+      rewrite !map_length. split; [reflexivity|exact Hl].
   Qed.
 
   Lemma go_field f v : glookup rho f = Some v -> GE [] (GSel GT f) = GV (gval_of v).
@@ -1290,6 +1292,10 @@ Section Sound.
         * destruct Hv as [vs [ws [-> [-> [Hall Hlen]]]]]. cbn [glen].
           exists (VInt (Z.of_nat (length ws))), (GInt IInt (Z.of_nat (length ws))). split; [reflexivity|].
           split; [exists (Z.of_nat (length ws)); auto|].
+          destruct Hc as [-> | ->]; [left|right]; cbn; rewrite ?Hall; reflexivity.
+        * destruct Hv as [m [gm [-> [-> [Hall Hlen]]]]]. cbn [glen].
+          exists (VInt (Z.of_nat (length gm))), (GInt IInt (Z.of_nat (length gm))). split; [reflexivity|].
+          split; [exists (Z.of_nat (length gm)); auto|].
           destruct Hc as [-> | ->]; [left|right]; cbn; rewrite ?Hall; reflexivity.
       + (* FInt *)
         destruct (is_strlike ta) eqn:Es; [|discriminate]. inv Hty.
